@@ -4,6 +4,7 @@
 # patch, a scratch copy of the harness (and of the feature probe) is pointed at it, and the check runs with
 # its work / out / evidence directories redirected to /tmp/wt as well.  Slots allow several audits in
 # parallel; the scratch harness keeps its build output between audits of the same slot.
+V=$(dirname $(dirname $(realpath $0)))   # the /verif tree this tool belongs to (a vp-run snapshot works too)
 patch="$(realpath "$1")"; prop="$2"; tier="${3:-quick}"; slot="${4:-0}"
 id=$(basename $(dirname $patch))
 WT=/tmp/wt/try_$slot; H=/tmp/wt/h_$slot; F=/tmp/wt/f_$slot; W=/tmp/wt/w_$slot
@@ -12,12 +13,12 @@ git -C /repo worktree add -q --detach $WT HEAD || exit 2
 git -C $WT apply "$patch" || { echo "$id: patch does not apply"; git -C /repo worktree remove --force $WT; exit 3; }
 cp -n /repo/Cargo.lock $WT/Cargo.lock 2>/dev/null
 mkdir -p $H $F $W/work $W/out $W/evidence
-rsync -a --delete --exclude target /verif/harness/ $H/ && sed -i "s|path = \"/repo\"|path = \"$WT\"|" $H/Cargo.toml
-rsync -a --delete --exclude target /verif/featprobe/ $F/ && sed -i "s|path = \"/repo\"|path = \"$WT\"|" $F/Cargo.toml
-cd /verif && VERIF_REPO=$WT VERIF_HARNESS=$H VERIF_FEATPROBE=$F VERIF_WORK=$W/work VERIF_OUT=$W/out VERIF_EVID=$W/evidence \
+rsync -a --delete --exclude target $V/harness/ $H/ && sed -i "s|path = \"/repo\"|path = \"$WT\"|" $H/Cargo.toml
+rsync -a --delete --exclude target $V/featprobe/ $F/ && sed -i "s|path = \"/repo\"|path = \"$WT\"|" $F/Cargo.toml
+cd $V && VERIF_REPO=$WT VERIF_HARNESS=$H VERIF_FEATPROBE=$F VERIF_WORK=$W/work VERIF_OUT=$W/out VERIF_EVID=$W/evidence \
   ./check "$prop" --tier "$tier" > "$W/$id.$prop.log" 2>&1
 rc=$?
-mkdir -p /verif/work/audit && cp "$W/$id.$prop.log" /verif/work/audit/
+mkdir -p $V/work/audit && cp "$W/$id.$prop.log" $V/work/audit/
 echo "$id $prop rc=$rc $(grep -c '^VIOLATION' $W/$id.$prop.log) violation-lines; $(grep -m1 'key=' $W/$id.$prop.log | cut -c1-160)"
 git -C /repo worktree remove --force $WT
 exit $rc
